@@ -20,6 +20,7 @@ type sinkState struct {
 	lines    []*sdf.Line2
 	ordered  bool // single producer: the sequence must be preserved
 	exactDXF bool // C15: DXF coordinates must parse back to exactly the input
+	circles  int  // drawing-object episodes: point markers added with DXF.Points
 
 	notices  []Check          // secondary findings that do not stop the other checks
 	outTris  []*sdf.Triangle3 // what ToTriangles returned
@@ -199,8 +200,15 @@ func (s *sinkState) checkDXF() Check {
 	if err != nil {
 		return bad("sink-missing", "dxf: %v", err)
 	}
-	if len(d.OtherEntities) != 0 {
-		return bad("dxf-entities", "dxf holds entities other than LINE: %v", d.OtherEntities[:min(4, len(d.OtherEntities))])
+	// (s.circles: markers a program added with DXF.Points, which are CIRCLE entities)
+	circles := 0
+	for _, e := range d.OtherEntities {
+		if e == "CIRCLE" {
+			circles++
+		}
+	}
+	if len(d.OtherEntities) != circles || circles != s.circles {
+		return bad("dxf-entities", "dxf holds entities other than the LINEs (and %d point markers) added: %v", s.circles, d.OtherEntities[:min(4, len(d.OtherEntities))])
 	}
 	want := make([]string, len(s.lines))
 	want16 := make([]string, len(s.lines))
